@@ -11,6 +11,21 @@ Fixpoint count_code (A : list bytes) (Rs : list (list bytes)) (L : nat) : Z :=
   | R :: Rs' => (count_code A Rs' L - count_code (diff A R) Rs' L)%Z
   end.
 
+(** square-and-multiply, for running the model on lengths in the thousands
+    (equal to [^] : Proofs/CountProofs.v zpow_fast_eq) *)
+Fixpoint pow_pos_fast (x : Z) (p : positive) : Z :=
+  match p with
+  | xH => x
+  | xO p' => let y := pow_pos_fast x p' in (y * y)%Z
+  | xI p' => let y := pow_pos_fast x p' in (x * (y * y))%Z
+  end.
+Definition zpow_fast (x n : Z) : Z := match n with Z0 => 1%Z | Zpos p => pow_pos_fast x p | Zneg _ => 0%Z end.
+Fixpoint count_fast (A : list bytes) (Rs : list (list bytes)) (L : nat) : Z :=
+  match Rs with
+  | [] => zpow_fast (Z.of_nat (length A)) (Z.of_nat L)
+  | R :: Rs' => (count_fast A Rs' L - count_fast (diff A R) Rs' L)%Z
+  end.
+
 (** big.Int.Exp returns 1 for a non-positive exponent *)
 Definition len_nat (r : char_recipe) : nat := Z.to_nat (crLength r).
 
@@ -36,12 +51,12 @@ Definition char_entropy (r : char_recipe) : entropy :=
     by [recipe_report_spec]) *)
 Definition recipe_report (r : char_recipe) : bytes * Z * entropy * Z :=
   let A := alphabet r in
-  let c := count_code A (live_sets r) (len_nat r) in
+  let c := count_fast A (live_sets r) (len_nat r) in
   let e := match req_union (required_sets r) with
            | [] => EntSimple (crLength r) (N.of_nat (length A))
            | _ => EntCount c
            end in
-  (concat A, c, e, (Z.of_nat (length A) ^ Z.of_nat (len_nat r))%Z).
+  (concat A, c, e, zpow_fast (Z.of_nat (length A)) (Z.of_nat (len_nat r))).
 
 (** the integer whose log2 the entropy is, for lengths >= 0 *)
 Definition entropy_count (e : entropy) : Z :=
